@@ -96,6 +96,9 @@ def mk_lines(kind: str, text: str, n: int) -> Tuple[Any, bool]:
         "junk_huge_int": b'{"jsonrpc":"2.0","id":' + b"9" * 5000 + b',"method":"ping"}',
         "junk_nested_batch": b'[[{"jsonrpc":"2.0","id":1,"result":{"x":1}}],[]]',
         "junk_nan": b'{"jsonrpc":"2.0","id":1,"result":{"a":NaN,"b":-Infinity}}',
+        "junk_err_empty": b'{"jsonrpc":"2.0","id":2,"error":{}}',
+        "junk_err_empty_strid": b'{"jsonrpc":"2.0","id":"r-3","error":{}}',
+        "junk_err_nocode": b'{"jsonrpc":"2.0","id":4,"error":{"message":"m"}}',
         "junk_err_badtypes": b'{"jsonrpc":"2.0","id":1,"error":{"code":"-32601","message":5}}',
         "junk_err_listcode": b'{"jsonrpc":"2.0","id":2,"error":{"code":[1],"message":"m"}}',
         "junk_method_int": b'{"jsonrpc":"2.0","id":3,"method":5}',
@@ -120,7 +123,7 @@ JUNK_KINDS = ["junk_text", "junk_brace", "junk_scalar", "junk_string", "junk_nul
               "junk_both", "junk_badutf8", "junk_badutf8_2", "junk_empty", "junk_spaces", "lenient_v1", "junk_trunc_utf8",
               "junk_nullid_result", "junk_bool_id", "junk_float_id", "ws_nel_prefixed", "ws_ff_wrapped",
               "junk_deep_brackets", "junk_huge_int", "junk_nested_batch", "junk_nan", "junk_err_badtypes", "junk_err_listcode",
-              "junk_method_int", "junk_string_of_response", "junk_string_of_note", "junk_string_of_batch"]
+              "junk_method_int", "junk_err_empty", "junk_err_empty_strid", "junk_err_nocode", "junk_string_of_response", "junk_string_of_note", "junk_string_of_batch"]
 
 
 def build_stream(spec: List[Tuple[str, str, str, bool]]) -> bytes:
